@@ -92,6 +92,52 @@ Proof.
 Qed.
 Print Assumptions C10_success_installs_new.
 
+(* What a hit installs is what was STORED.  [entry] maps each output to the bytes of its member as they were put into
+   the cache.  The hypothesis says what `get_object` returning Ok means: the chunks it wrote are the complete stored
+   member (zstd and the zip CRC are not modelled; a get_object that returns Ok after writing a prefix — a size cap
+   that ends the stream early — is exactly what this hypothesis excludes, and what the legs check on the real code
+   by comparing every installed file and every byte count with the stored member, for contents that compress by far
+   more than 1000:1 as well).  Then after Ok every regular output holds exactly the stored bytes. *)
+Theorem C10_hit_installs_stored_bytes :
+  forall (f0 : fs) (objs : list obj) (readers : list (@thread local action)) (sched : list nat)
+         (entry : list (path * bytes)),
+    fs_okb f0 = true -> outputs_okb objs = true -> forallb (observerb f0) readers = true ->
+    NoDup (map o_path objs) ->
+    (forall o, In o objs -> o_ok o = true -> aget path_eqb (o_path o) entry = Some (o_new o)) ->
+    forall l rs o,
+      snd (run sched f0 objs readers) = (l, []) :: rs -> l_dead l = false ->
+      In o objs -> o_special o = false -> o_ok o = true ->
+      content (fst (run sched f0 objs readers)) (o_path o) = aget path_eqb (o_path o) entry.
+Proof.
+  intros f0 objs readers sched entry Hfs Hout Hobs Hnd Hent l rs o Hfin Hal Hin Hsp Hok.
+  rewrite (Hent o Hin Hok).
+  exact (success_installs_new f0 objs readers sched Hfs Hout Hobs l rs o Hnd Hfin Hal Hin Hsp Hok).
+Qed.
+Print Assumptions C10_hit_installs_stored_bytes.
+
+(* An output path that exists when the request starts exists at EVERY moment of it, under every schedule, whatever
+   fails: the request never unlinks an output (the hit arm of get_cached_or_compile is: read stdout/stderr, then
+   extract_objects — nothing else touches the output paths; the leg `request` checks that on whole requests). *)
+Theorem C10_existing_output_never_absent :
+  forall (f0 : fs) (objs : list obj) (readers : list (@thread local action)) (sched : list nat),
+    fs_okb f0 = true -> outputs_okb objs = true -> forallb (observerb f0) readers = true ->
+    forall p, is_tmp p = false -> lookup p f0 <> None ->
+      lookup p (fst (run sched f0 objs readers)) <> None.
+Proof. exact existing_output_never_absent. Qed.
+Print Assumptions C10_existing_output_never_absent.
+
+(* Non-example: were the caller to unlink an existing output before the extraction (an [AUnlink] of a non-temp path
+   is not an action [prog] ever contains), the path would be absent while the other members are restored, and gone
+   for good if a later member fails. *)
+Example ex_unlink_before_restore_breaks :
+  let p := ([100], [98]) in
+  let f0 := mk_fs_from [(p, ([9], 420))] 0 in
+  let bad := mkObj p [121] [[5]] DecCorrupt true FNone false in
+  let s1 := seq_run [AUnlink p] (f0, init_local) in
+  let s2 := seq_run (AUnlink p :: prog [bad]) (f0, init_local) in
+  content f0 p = Some [9] /\ content (fst s1) p = None /\ content (fst s2) p = None /\ l_dead (snd s2) = true.
+Proof. vm_compute. repeat split; reflexivity. Qed.
+
 (* The shape of the system calls (the tie to the strace leg: the harness checks that the OBSERVED calls are exactly
    [trace (prog objs)] for the object descriptions read back from them), with the two classes of outputs explicit.
    From any state, whatever the members do:
